@@ -181,6 +181,50 @@ type Query struct {
 	Values []*Term
 }
 
+// symbolsOf collects variable and function names of a term.
+func symbolsOf(t *Term, out map[string]bool, seen map[*Term]bool) {
+	if seen[t] {
+		return
+	}
+	seen[t] = true
+	if t.Op == "var" || t.Op == "app" {
+		out[t.Name] = true
+	}
+	for _, a := range t.Args {
+		symbolsOf(a, out, seen)
+	}
+}
+
+// pruneFacts keeps all quantifier-free facts and those quantified facts that mention a symbol of the goal.
+// Dropping hypotheses is always sound for a proof (unsat); it keeps irrelevant quantifiers away from the solver.
+func pruneFacts(facts []*Term, goal *Term) ([]*Term, bool) {
+	gs := map[string]bool{}
+	symbolsOf(goal, gs, map[*Term]bool{})
+	var out []*Term
+	dropped := false
+	for _, f := range facts {
+		if _, _, _, q := featureScan([]*Term{f}); !q {
+			out = append(out, f)
+			continue
+		}
+		fs := map[string]bool{}
+		symbolsOf(f, fs, map[*Term]bool{})
+		keep := false
+		for n := range fs {
+			if gs[n] && !strings.HasPrefix(n, "p|") && n != "alloc0" {
+				keep = true
+				break
+			}
+		}
+		if keep {
+			out = append(out, f)
+		} else {
+			dropped = true
+		}
+	}
+	return out, dropped
+}
+
 // solve races the portfolio. expectSat: cover queries (a sat answer is the "good" one; no need for all solvers).
 func solve(q Query, timeout time.Duration) SolverRes {
 	math, bits, hasFP, quant := featureScan(append(append([]*Term{}, q.Facts...), q.Goal))
@@ -235,6 +279,21 @@ func solve(q Query, timeout time.Duration) SolverRes {
 		}
 		return js
 	}
+	// pruned variant: raced alongside in every stage (unsat answers only)
+	var prunedJobs []job
+	if quant {
+		if pf, dropped := pruneFacts(q.Facts, q.Goal); dropped {
+			for _, cv := range []bool{false, true} {
+				if ps, err := buildScript(ModeInt, pf, q.Goal, nil, cv); err == nil {
+					for _, sp := range solvers {
+						if sp.cvc5 == cv {
+							prunedJobs = append(prunedJobs, job{sp, ModePruned, ps})
+						}
+					}
+				}
+			}
+		}
+	}
 	var attempts []string
 	race := func(js []job, to time.Duration) *SolverRes {
 		ctx, cancel := context.WithCancel(context.Background())
@@ -252,6 +311,9 @@ func solve(q Query, timeout time.Duration) SolverRes {
 		var decided *SolverRes
 		for r := range ch {
 			attempts = append(attempts, fmt.Sprintf("%s/%s:%s:%.2fs", r.Solver, r.Mode, r.Status, r.Time))
+			if r.Status == "sat" && r.Mode == "pruned" {
+				r.Status = "unknown" // fewer hypotheses: a model of the pruned query is not a counterexample
+			}
 			if r.Status == "sat" && r.Mode == "real" {
 				// the relaxed float model over-approximates: its models are not counterexamples
 				r.Status = "unknown"
@@ -268,11 +330,11 @@ func solve(q Query, timeout time.Duration) SolverRes {
 	if timeout < st1 {
 		st1 = timeout
 	}
-	if d := race(mkJobs(1), st1); d != nil {
+	if d := race(append(mkJobs(1), prunedJobs...), st1); d != nil {
 		d.Attempt = attempts
 		return *d
 	}
-	if d := race(mkJobs(2), timeout); d != nil {
+	if d := race(append(mkJobs(2), prunedJobs...), timeout); d != nil {
 		d.Attempt = attempts
 		return *d
 	}
